@@ -169,6 +169,20 @@ CHECKS = {
         "xarray/h5netcdf are trusted to store what they are given.",
         "DESIGN.md section 4, C14",
     ),
+    "C15": (
+        "exploration",
+        "model-based testing of generated run histories (Hypothesis): "
+        "append-only table model, row-wise recomputation, disk == memory",
+        "Generated histories of direct sampling runs, crop-based sampling "
+        "runs and fresh Sampler sessions on one file (pickle and csv), with "
+        "choice lists, overrides and a logging callable as generators; after "
+        "every run the table must have grown by exactly n, earlier rows must "
+        "be unchanged, every new row must be drawn from the allowed values "
+        "and recompute to its own outputs, and the file must equal memory.",
+        "n >= 1 (n = 0 is an open, listed finding); numpy RNG seeded from the "
+        "case.",
+        "DESIGN.md section 4, C15",
+    ),
     "C19": (
         "exploration",
         "property-based testing (Hypothesis) against an exact Fraction "
